@@ -5,7 +5,7 @@
    fixes/C16-bridge-traffic-report-mutex.diff); the pinned code is refuted by witness schedules.
    StreamProcessor is stated for the repaired code of commit cedd5da (onClose keeps reader / writer), pinned code refuted.
    "No goroutine or timer remains" and "no panic" of the real runtime are checked by the harness oracle only (partial). *)
-From TX Require Import Model.Shutdown Proofs.Shutdown Proofs.ShutdownLife Proofs.SideC16 Gen.C16.
+From TX Require Import Model.Shutdown Proofs.Shutdown Proofs.ShutdownLife Proofs.ShutdownMore Proofs.SideC16 Gen.C16.
 From Coq Require Import ZArith.
 
 (* (1) handlers_once — dispose.Dispose.  hs0 = handlers registered before anything runs; threads = any mix of Close callers
@@ -212,6 +212,78 @@ Theorem C16_lock_held_across_write_refuted :
     (forall sched, run _ _ (fstep true) s sched = s) /\ existsb f_close_pending (snd s) = true.
 Proof. exact lock_held_across_write_refuted. Qed.
 Print Assumptions C16_lock_held_across_write_refuted.
+
+(* (7) queued_op — StreamProcessor acquireReadLock / acquireWriteLock, repository order (lock, then the closed test): for ANY
+   operations and Close calls and ANY schedule, no call is ever made on the underlying reader / writer by an operation that
+   entered its I/O phase after Close had returned; and an operation that has not entered its I/O phase at a moment when the
+   processor is closed (queued on the lock behind an in-flight operation, or holding it before the test) only ever waits or
+   returns an error. *)
+Theorem C16_no_io_after_close_by_queued_ops :
+  forall (reads : nat) (ts : list qpc) (sched : list nat),
+  Forall q_ok ts -> q_late (fst (run _ _ (qstep true reads) (qinit, ts) sched)) = 0.
+Proof. intros reads ts sched H. exact (no_late_io_all_schedules reads ts sched H). Qed.
+Print Assumptions C16_no_io_after_close_by_queued_ops.
+
+Theorem C16_queued_op_fails_cleanly :
+  forall (reads j : nat) (sh : qsh) (ls : list qpc) (sched : list nat),
+  q_closed sh = true -> (nth_error ls j = Some QStart \/ nth_error ls j = Some QHave) ->
+  let s := run _ _ (qstep true reads) (sh, ls) sched in
+  nth_error (snd s) j = Some QStart \/ nth_error (snd s) j = Some QHave \/ nth_error (snd s) j = Some (QRet false).
+Proof. intros reads j sh ls sched H1 H2. exact (queued_op_fails_cleanly reads j sh ls sched H1 H2). Qed.
+Print Assumptions C16_queued_op_fails_cleanly.
+
+(* the closed test moved in front of the lock: {A, B, Close}: B passes the test, queues behind A, Close runs and returns,
+   B then performs its call on the underlying reader of the closed processor and returns ok *)
+Theorem C16_check_before_lock_refuted :
+  exists sched,
+    let s := run _ _ (qstep false 1) (qinit, [QStart; QStart; QClose]) sched in
+    q_closed (fst s) = true /\ q_dlock (fst s) = false /\ nth_error (snd s) 1 = Some (QRet true) /\ q_late (fst s) = 1.
+Proof. exact check_before_lock_refuted. Qed.
+Print Assumptions C16_check_before_lock_refuted.
+
+(* (8) composite_bodies — a clean handler whose body shuts down several sub-components, each of which may fail
+   (`bodies h` = the sub-components of handler h with their failure flags): for ANY failure pattern, ANY number of concurrent
+   closers / adders and ANY schedule, once a Close has returned every sub-component body of every handler registered before
+   the first Close ran exactly once, in order (composition of (1) with the continue-on-error body). *)
+Theorem C16_composite_bodies_once :
+  forall (bodies : nat -> list sub) (hs0 : list hnd) (ts : list dpc) (sched : list nat),
+  forallb d_initial ts = true ->
+  let s := drun hs0 ts sched in
+  forall r a, In (DDone r a) (snd s) ->
+    exists sn, d_snap (fst s) = Some sn /\ (exists mid, sn = hs0 ++ mid) /\
+      sub_runlog false bodies (d_runlog (fst s)) = flat_map (fun h => map s_id (bodies (h_id h))) sn.
+Proof. intros bodies hs0 ts sched H. exact (composite_bodies_once bodies hs0 ts sched H). Qed.
+Print Assumptions C16_composite_bodies_once.
+
+(* return at the first failing sub-component: a later sub-component (the tunnel manager) is never shut down *)
+Theorem C16_early_return_refuted :
+  exists subs, In 2 (map s_id subs) /\ ~ In 2 (fst (run_body true subs)).
+Proof. exact early_return_refuted. Qed.
+Print Assumptions C16_early_return_refuted.
+
+(* (9) attach_after_close — Bridge.Close re-sweeps whatever is attached now (repository), one side of the bridge: for ANY
+   Close calls and attach calls of distinct connections and ANY schedule, no connection is closed twice, and when a Close
+   then runs its sweep with nobody else moving (the lifecycle's final Close), the slot is empty and every connection ever
+   attached that was not displaced by a later attach has been closed exactly once. *)
+Theorem C16_attach_after_close :
+  forall (ts : list bpc) (sched : list nat) (k : nat),
+  NoDup (flat_map b_pending ts) ->
+  let s := run _ _ (bstep false) (binit, ts) sched in
+  (forall c, cnt c (b_closedlog (fst s)) <= 1) /\
+  (nth_error (snd s) k = Some BClose ->
+     let s' := run _ _ (bstep false) s [k; k] in
+     b_slot (fst s') = None /\
+     forall c, cnt c (b_closedlog (fst s')) + cnt c (b_dropped (fst s')) = cnt c (b_attached (fst s')) /\ cnt c (b_attached (fst s')) <= 1).
+Proof. intros ts sched k H. exact (attach_after_close_all_schedules ts sched k H). Qed.
+Print Assumptions C16_attach_after_close.
+
+(* the "already closed, return" fast path: Close; a late connection is attached; the final Close returns at once *)
+Theorem C16_close_fast_path_refuted :
+  exists sched,
+    let s := run _ _ (bstep true) (binit, [BClose; BAttach 7; BClose]) sched in
+    snd s = [BDone; BAttached; BDone] /\ b_slot (fst s) = Some 7 /\ cnt 7 (b_closedlog (fst s)) = 0 /\ cnt 7 (b_attached (fst s)) = 1.
+Proof. exact close_fast_path_refuted. Qed.
+Print Assumptions C16_close_fast_path_refuted.
 
 (* non-vacuity: concrete thread lists satisfy the hypotheses of (1) - (6) *)
 Theorem C16_premises_satisfiable :
